@@ -34,7 +34,8 @@ Verdict(r) ==
          ELSE IF ~r.bytes_back THEN "key-id-bytes-not-preserved" ELSE "ok"
     [] r.fn = "idparse" ->
          IF r.panic THEN "key-id-parser-panicked"
-         ELSE IF r.ok # (r.len = 33) THEN (IF r.ok THEN "key-id-of-the-wrong-length-accepted" ELSE "33-byte-key-id-rejected")
+         ELSE IF r.ok /\ ~r.header_exact THEN "key-id-with-a-malformed-type-header-accepted"
+         ELSE IF r.header_exact /\ r.ok # (r.len = 33) THEN (IF r.ok THEN "key-id-of-the-wrong-length-accepted" ELSE "33-byte-key-id-rejected")
          ELSE IF r.ok /\ ~(r.text_back /\ r.bytes_back) THEN "key-id-does-not-round-trip-through-text" ELSE "ok"
     [] r.fn = "inc128" -> IF r.out = Inc128(r.x, r.j) THEN "ok" ELSE "evaluator-counter-arithmetic-differs-from-Ctr"
     [] r.fn = "term" ->
